@@ -366,6 +366,82 @@ example : selfRedirect (buildRedirectURL { url := { scheme := lit "https", host 
 example : location { url := { scheme := lit "https", host := lit "bar.com$path" }, strip := lit "/foo", code := 301 }
     { host := lit "x.com", path := lit "/foo" } = lit "https://bar.com/" := by decide
 
+/-! ### the whole Location -/
+
+theorem scheme_kept (t : RTarget) (req : URL) : (buildRedirectURL t req).scheme = t.url.scheme := by
+  have e2 : ∀ u, (stage2 u).scheme = u.scheme := by intro u; unfold stage2; split <;> rfl
+  have e3 : ∀ u, (stage3 u).scheme = u.scheme := by intro u; unfold stage3; split <;> rfl
+  have e4 : ∀ u, (stage4 t req u).scheme = u.scheme := by
+    intro u; unfold stage4; split
+    · simp only []; split <;> rfl
+    · rfl
+  have e5 : ∀ u, (stage5 u).scheme = u.scheme := by intro u; unfold stage5; split <;> rfl
+  have e6 : ∀ u, (stage6 req u).scheme = u.scheme := by intro u; unfold stage6; split <;> rfl
+  simp only [buildRedirectURL, e6, e5, e4, e3, e2]; rfl
+
+/-- `URL.String()` of a URL with a scheme and a host: `scheme://host` + (a `/` if the escaped path does not start
+with one) + escaped path + `?query` -/
+theorem urlString_with_scheme_host (u : URL) (hs : u.scheme ≠ []) (hh : u.host ≠ []) :
+    urlString u = u.scheme ++ [58] ++ ([47, 47] ++ escape .host u.host) ++
+      (if escapedPath u ≠ [] && (escapedPath u).head? != some 47 then [47] else []) ++ escapedPath u ++
+      (if u.rawQuery ≠ [] then 63 :: u.rawQuery else []) := by
+  unfold urlString
+  simp only [hs, hh, ne_eq, not_false_eq_true, decide_true, Bool.true_or, Bool.or_true, if_true, Bool.and_true]
+  simp
+
+/-- **The whole Location of a documented redirect template** — the property's first sentence as one equation.
+For `scheme://host$path`, `scheme://host/prefix/$path`, `scheme://host/prefix$path` (template without a raw-path
+hint, any prefix bytes, any prepend), a request with or without raw path whose escaped path is `strip ++ r'`:
+
+`Location = scheme "://" host' [ "/" ] escape(prefix) escaped(prepend) r' [ "?" query ]`
+
+with `host'` the template host in which `$host` is the request's `Host`, the `/` only when the rest does not
+start with one (the client encoded the first slash), and `query` the template's if it has one, else the request's;
+non-ASCII bytes `%xx`-escaped by `http.Redirect`. **Partial** only in the forced strip hypothesis (D17d). -/
+theorem documented_redirect_location (t : RTarget) (req : URL) (pfx r' p' : Str)
+    (spelling :
+      (∃ h, t.url.host = h ++ vPath ∧ pfx = []) ∨
+      (hasSuffix t.url.host vPath = false ∧ t.url.rawPath = [] ∧ t.url.path = pfx ++ vSlashPath) ∨
+      (hasSuffix t.url.host vPath = false ∧ t.url.rawPath = [] ∧ t.url.path = pfx ++ vPath ∧ pfx.getLast? ≠ some 47))
+    (hd : ∀ c ∈ pfx, c ≠ 36) (hs : ∀ c ∈ t.strip, c ≠ 37)
+    (hraw : escapedPath req = t.strip ++ r') (hpath : req.path = t.strip ++ p')
+    (habs : hasPrefix (pfx ++ (t.prepend ++ p')) slash = true)
+    (hsch : t.url.scheme ≠ []) (hhost : (buildRedirectURL t req).host ≠ []) :
+    let host' := if contains vHost (stage2 (stage1 t)).host then replace1 vHost req.host (stage2 (stage1 t)).host
+                 else (stage2 (stage1 t)).host
+    let P := escape .path pfx ++ (escPrepend t ++ r')
+    let q := if t.url.rawQuery = [] then req.rawQuery else t.url.rawQuery
+    location t req = hexEscapeNonASCII (t.url.scheme ++ [58] ++ ([47, 47] ++ escape .host host') ++
+      (if P ≠ [] && P.head? != some 47 then [47] else []) ++ P ++ (if q ≠ [] then 63 :: q else [])) := by
+  intro host' P q
+  have hP := location_path_is_request_path t req pfx r' p' spelling hd hs hraw hpath habs
+  have hH := host_substituted t req
+  have hn : (stage3 (stage2 (stage1 t))).path = pfx ++ vPath := by
+    have e1 : escape .path vSlashPath = vSlashPath := by decide
+    have e2 : escape .path vPath = vPath := by decide
+    have hne1 : pfx ++ vSlashPath ≠ [42] := by
+      intro h; have := congrArg List.length h; simp [vSlashPath, vPath] at this
+    have hne2 : pfx ++ vPath ≠ [42] := by
+      intro h; have := congrArg List.length h; simp [vPath] at this
+    rcases spelling with ⟨h, hh, rfl⟩ | ⟨hh, hr0, hp⟩ | ⟨hh, hr0, hp, hl⟩
+    · exact (norm_hostPath t h hh).1
+    · exact (norm_slashPath t pfx (escape .path pfx) hh hp (escapedPath_template t pfx vSlashPath hr0 hp e1 hne1) hd
+        (escape_no_dollar pfx hd)).1
+    · exact (norm_barePath t pfx (escape .path pfx) hh hp (escapedPath_template t pfx vPath hr0 hp e2 hne2) hd hl).1
+  have hc : contains vPath (stage3 (stage2 (stage1 t))).path = true := by
+    rw [hn]; have := contains_vPath_append pfx []; simpa using this
+  have hQ := query_carried_when_target_has_none t req hc
+  have hS := scheme_kept t req
+  unfold location
+  rw [urlString_with_scheme_host _ (by rw [hS]; exact hsch) hhost, hS, hP, hH, hQ]
+
+/-- non-vacuity: `https://$host:8443/a b/$path`, strip, a prepend that needs escaping, a request without raw path
+and with a query -/
+example :
+    let t : RTarget := { url := { scheme := lit "https", host := lit "$host:8443", path := lit "/a b/$path" }, strip := lit "/s", prepend := lit "/p q", code := 302 }
+    let req : URL := { host := lit "x.com", path := lit "/s/x y", rawQuery := lit "k=v" }
+    location t req = lit "https://x.com:8443/a%20b/p%20q/x%20y?k=v" := by decide
+
 /-! ### self-redirect skip -/
 
 /-- A redirect whose URL has the request's own scheme, host and path is skipped: the loop goes on to the
